@@ -312,6 +312,13 @@ def run(tier):
     edgevc.check_fast_load_bookkeeping(rep, 'C13')   # ... and set to the block's last edge after a fast load
     fastloadvc.check_fast_load(rep, 'C13')  # ROM fast loading: which bytes land where, registers on exit
     fastloadvc.crosscheck_fast_load(rep, 'C13')
+    # the tracer's port decoder (LoadTracer inherits PagingTracer.write_port): on a 48K machine out7ffd - which run() sets to 0x10 as
+    # "the 48K ROM is always in" and tests before reading the tape at 0x0562..0x05F1 / fast loading at 0x0556 - is never changed
+    from props import paging
+    for label, fn, via, cls in paging.write_port_targets():
+        if label.startswith('skoolkit.pagingtracer.PagingTracer.write_port'):
+            for is128 in (False, True):
+                paging.check_write_port(rep, 'C13', label, fn, via, cls, is128)
     fastloadvc.check_block_selection(rep, 'C13')    # which block fast_load picks: the selection loop and next_block (contracts, termination)
     fastloadvc.block_selection_bounded(rep, 'C13')  # pilotless junk blocks between ROM blocks, through tap2sna
     progexec.crosscheck_ffwd(rep, 'C13')
@@ -348,6 +355,19 @@ def replay(path):
         if d:
             print('VIOLATION property=C13 replay=%s' % path)
             return 1
+        return 0
+    if 'port' in case and 'out7ffd' in case and 'is128' in case:
+        from props import paging
+        import skoolkit.pagingtracer as pt
+        bad = False
+        for fn in (pt.PagingTracer.write_port, pt.PagingTracer.write_port_with_border_list):
+            d = paging.concrete_write_port(fn, 'simulator', pt.PagingTracer, case['is128'], case['port'], case['value'], case['out7ffd'], case.get('outfffd', 0))
+            print(fn.__name__, d)
+            bad = bad or bool(d)
+        if bad:
+            print('VIOLATION property=C13 replay=%s' % path)
+            return 1
+        print('does not reproduce on this tree')
         return 0
     if 'block_selection' in case or 'blocks' in case:
         from props import fastloadvc
